@@ -18,6 +18,7 @@ import GSV.Lemmas.Spectral
 import Mathlib.Analysis.SpecialFunctions.Gaussian.FourierTransform
 import Mathlib.MeasureTheory.Measure.Lebesgue.VolumeOfBalls
 import Mathlib.Analysis.SpecialFunctions.Pow.Deriv
+import Mathlib.Analysis.SpecialFunctions.ImproperIntegrals
 import Mathlib.Analysis.SpecialFunctions.Sqrt
 import Mathlib.Tactic.Ring
 import Mathlib.Tactic.Linarith
@@ -123,5 +124,632 @@ theorem rad_pdf_eq_smooth (d : ℕ) (hd : 1 ≤ d) (dens : ℝ → ℝ) (r : ℝ
 example : (1:ℕ) ≤ 2 ∧ (0:ℝ) ≤ 1 ∧ ((2:ℕ) = 1 ∨ (1e-8:ℝ) < 1) ∧ (0:ℝ) ≤ gauDensity 2 1 1 := by
   refine ⟨by norm_num, by norm_num, Or.inr (by norm_num), ?_⟩
   unfold gauDensity; simp; positivity
+
+/-! ## 3. Gaussian: the density is the Fourier transform of the correlation, in every dimension -/
+
+theorem gauDensity_real (d : ℕ) (ℓ k : ℝ) :
+    gauDensity d ℓ k = (ℓ / 2 / √π) ^ d * Real.exp (-(k * ℓ / 2) ^ 2) := by
+  simp [gauDensity]
+
+theorem gau_correlation_real (ℓ r : ℝ) : correlation gauCor ℓ r = Real.exp (-(r / ℓ) ^ 2) := by
+  simp [correlation, gauCor]
+
+section Fourier
+open Complex
+variable {V : Type*} [NormedAddCommGroup V] [InnerProductSpace ℝ V] [FiniteDimensional ℝ V]
+  [MeasurableSpace V] [BorelSpace V]
+
+/-- **Gaussian, every dimension** (any finite-dimensional real inner-product space `V`, `d = dim V`):
+    with the code's convention `S̃(k) = (1/2π)^d ∫ ρ(‖r‖) e^{i⟨k,r⟩} dr` the transform of
+    `correlation(r) = cor(r / len_rescaled) = exp(-(r/ℓ)²)` is exactly `Gaussian.spectral_density`,
+    `(ℓ/2/√π)^d · exp(-(‖k‖ℓ/2)²)`. -/
+theorem gaussian_density_is_fourier (ℓ : ℝ) (hℓ : 0 < ℓ) (k : V) :
+    ((1 / (2 * π) : ℝ) : ℂ) ^ (Module.finrank ℝ V) *
+        ∫ v : V, ((correlation gauCor ℓ ‖v‖ : ℝ) : ℂ) * cexp (I * ((inner ℝ k v : ℝ) : ℂ))
+      = ((gauDensity (Module.finrank ℝ V) ℓ ‖k‖ : ℝ) : ℂ) := by
+  set n := Module.finrank ℝ V with hn
+  have hb : 0 < ((1 / ℓ ^ 2 : ℝ) : ℂ).re := by
+    rw [Complex.ofReal_re]; positivity
+  have hint : ∀ v : V, ((correlation gauCor ℓ ‖v‖ : ℝ) : ℂ) * cexp (I * ((inner ℝ k v : ℝ) : ℂ))
+      = cexp (-((1 / ℓ ^ 2 : ℝ) : ℂ) * (‖v‖ : ℂ) ^ 2 + I * ((inner ℝ k v : ℝ) : ℂ)) := by
+    intro v
+    rw [gau_correlation_real, Complex.exp_add, Complex.ofReal_exp]
+    congr 2
+    push_cast
+    field_simp
+  simp_rw [hint]
+  rw [GaussianFourier.integral_cexp_neg_mul_sq_norm_add hb I k, gauDensity_real]
+  have hπ : (0:ℝ) < π := Real.pi_pos
+  have hsq : √π ^ 2 = π := Real.sq_sqrt hπ.le
+  have hsqne : √π ≠ 0 := (Real.sqrt_pos.mpr hπ).ne'
+  -- the prefactor
+  have h1 : ((π : ℂ) / ((1 / ℓ ^ 2 : ℝ) : ℂ)) ^ ((n : ℂ) / 2) = (((√π * ℓ) ^ n : ℝ) : ℂ) := by
+    have e1 : ((π : ℂ) / ((1 / ℓ ^ 2 : ℝ) : ℂ)) = (((√π * ℓ) ^ 2 : ℝ) : ℂ) := by
+      rw [mul_pow, hsq]; push_cast; field_simp
+    have e2 : ((n : ℂ) / 2) = (((n : ℝ) / 2 : ℝ) : ℂ) := by push_cast; ring
+    have hpos : 0 ≤ (√π * ℓ) ^ 2 := by positivity
+    rw [e1, e2, ← Complex.ofReal_cpow hpos]
+    congr 1
+    rw [← Real.rpow_natCast ((√π * ℓ)) 2, ← Real.rpow_mul (by positivity)]
+    have : ((2:ℕ):ℝ) * ((n:ℝ) / 2) = n := by push_cast; ring
+    rw [this, Real.rpow_natCast]
+  -- the exponent
+  have h2 : cexp (I ^ 2 * (‖k‖ : ℂ) ^ 2 / (4 * ((1 / ℓ ^ 2 : ℝ) : ℂ)))
+      = ((Real.exp (-(‖k‖ * ℓ / 2) ^ 2) : ℝ) : ℂ) := by
+    rw [Complex.ofReal_exp]
+    congr 1
+    rw [Complex.I_sq]
+    push_cast
+    field_simp
+    ring
+  rw [h1, h2]
+  rw [← Complex.ofReal_pow, ← Complex.ofReal_mul, ← Complex.ofReal_mul]
+  congr 1
+  rw [← mul_assoc, ← mul_pow]
+  congr 2
+  field_simp
+  rw [hsq]
+
+end Fourier
+
+/-- the same statement for `ℝ^d` with the Euclidean norm -/
+theorem gaussian_density_is_fourier_euclidean (d : ℕ) (ℓ : ℝ) (hℓ : 0 < ℓ) (k : EuclideanSpace ℝ (Fin d)) :
+    ((1 / (2 * π) : ℝ) : ℂ) ^ d *
+        ∫ v : EuclideanSpace ℝ (Fin d), ((correlation gauCor ℓ ‖v‖ : ℝ) : ℂ) *
+          Complex.exp (Complex.I * ((inner ℝ k v : ℝ) : ℂ))
+      = ((gauDensity d ℓ ‖k‖ : ℝ) : ℂ) := by
+  have h := gaussian_density_is_fourier (V := EuclideanSpace ℝ (Fin d)) ℓ hℓ k
+  rwa [finrank_euclideanSpace, Fintype.card_fin] at h
+
+
+/-! ## 4. radial cdf / pdf consistency
+
+`Offers c F` says that the option-valued model function `c` (the code returns `None` in dimensions it does
+not cover) offers the total function `F`.  Each theorem is stated for *whatever* function is offered. -/
+
+/-- the option-valued `c` offers the function `F` -/
+def Offers (c : ℝ → Option ℝ) (F : ℝ → ℝ) : Prop := ∀ r, c r = some (F r)
+
+theorem Offers.unique {c : ℝ → Option ℝ} {F G : ℝ → ℝ} (hF : Offers c F) (hG : Offers c G) : F = G := by
+  funext r; have := (hF r).symm.trans (hG r); simpa using this
+
+theorem offers_gaussian_d1 (ℓ : ℝ) : Offers (gauCdf specialR 1 ℓ) (fun r => erfR (r * ℓ / 2)) :=
+  fun r => by simp [gauCdf]
+theorem offers_gaussian_d2 (ℓ : ℝ) :
+    Offers (gauCdf specialR 2 ℓ) (fun r => 1 - Real.exp (-(r * ℓ / 2) ^ 2)) :=
+  fun r => by simp [gauCdf]
+theorem offers_gaussian_d3 (ℓ : ℝ) :
+    Offers (gauCdf specialR 3 ℓ)
+      (fun r => erfR (r * ℓ / 2) - r * ℓ / √π * Real.exp (-(r * ℓ / 2) ^ 2)) :=
+  fun r => by simp [gauCdf]
+theorem offers_exponential_d1 (ℓ : ℝ) :
+    Offers (expCdf 1 ℓ) (fun r => Real.arctan (r * ℓ) * 2 / π) :=
+  fun r => by simp [expCdf, atan_real]
+theorem offers_exponential_d2 (ℓ : ℝ) :
+    Offers (expCdf 2 ℓ) (fun r => 1 - 1 / √(1 + (r * ℓ) ^ 2)) :=
+  fun r => by simp [expCdf]
+theorem offers_exponential_d3 (ℓ : ℝ) :
+    Offers (expCdf 3 ℓ) (fun r => (Real.arctan (r * ℓ) - r * ℓ / (1 + (r * ℓ) ^ 2)) * 2 / π) :=
+  fun r => by simp [expCdf, atan_real]
+
+/-- in dimensions other than 1, 2, 3 nothing is offered (`has_cdf = False`) -/
+theorem no_cdf_offered (d : ℕ) (hd : d ≠ 1 ∧ d ≠ 2 ∧ d ≠ 3) (ℓ : ℝ) (F : ℝ → ℝ) :
+    ¬ Offers (gauCdf specialR d ℓ) F ∧ ¬ Offers (expCdf d ℓ) F := by
+  obtain ⟨h1, h2, h3⟩ := hd
+  constructor <;> intro h <;> have := h 0 <;>
+  · match d, h1, h2, h3 with
+    | 0, _, _, _ => simp [gauCdf, expCdf] at this
+    | n + 4, _, _, _ => simp [gauCdf, expCdf] at this
+
+private theorem sqrt_pi_ne : √π ≠ 0 := (Real.sqrt_pos.mpr Real.pi_pos).ne'
+private theorem sqrt_pi_sq : √π ^ 2 = π := Real.sq_sqrt Real.pi_pos.le
+
+private theorem hasDerivAt_half (ℓ r : ℝ) : HasDerivAt (fun r : ℝ => r * ℓ / 2) (ℓ / 2) r := by
+  simpa using ((hasDerivAt_id r).mul_const ℓ).div_const 2
+
+private theorem hasDerivAt_gauss_half (ℓ r : ℝ) :
+    HasDerivAt (fun r : ℝ => Real.exp (-(r * ℓ / 2) ^ 2))
+      (Real.exp (-(r * ℓ / 2) ^ 2) * (-(2 * (r * ℓ / 2) * (ℓ / 2)))) r := by
+  have h0 : HasDerivAt (fun r : ℝ => -(r * ℓ / 2) ^ 2) (-(2 * (r * ℓ / 2) * (ℓ / 2))) r := by
+    have h := ((hasDerivAt_half ℓ r).pow 2).neg
+    exact (h : HasDerivAt (fun r : ℝ => -(r * ℓ / 2) ^ 2) _ r).congr_deriv (by norm_num)
+  exact h0.exp
+
+/-- Gaussian d = 1: `cdf' = rad_fac · density` at every `r` -/
+theorem cdf_deriv_gaussian_d1 (ℓ : ℝ) {F : ℝ → ℝ} (hF : Offers (gauCdf specialR 1 ℓ) F) (r : ℝ) :
+    HasDerivAt F (radFac 1 r * gauDensity 1 ℓ r) r := by
+  rw [hF.unique (offers_gaussian_d1 ℓ)]
+  have h := (hasDerivAt_erfR (r * ℓ / 2)).comp r (hasDerivAt_half ℓ r)
+  refine (h : HasDerivAt (fun r : ℝ => erfR (r * ℓ / 2)) _ r).congr_deriv ?_
+  rw [gauDensity_real]; simp only [radFac, Nat.cast_ofNat, pow_one]
+  have := sqrt_pi_ne
+  field_simp
+
+/-- Gaussian d = 2 -/
+theorem cdf_deriv_gaussian_d2 (ℓ : ℝ) {F : ℝ → ℝ} (hF : Offers (gauCdf specialR 2 ℓ) F) (r : ℝ) :
+    HasDerivAt F (radFac 2 r * gauDensity 2 ℓ r) r := by
+  rw [hF.unique (offers_gaussian_d2 ℓ)]
+  have h := (hasDerivAt_gauss_half ℓ r).const_sub 1
+  refine h.congr_deriv ?_
+  rw [gauDensity_real]; simp only [radFac, Nat.cast_ofNat, pi_real]
+  have := sqrt_pi_ne
+  field_simp
+  rw [sqrt_pi_sq]
+
+/-- Gaussian d = 3 -/
+theorem cdf_deriv_gaussian_d3 (ℓ : ℝ) {F : ℝ → ℝ} (hF : Offers (gauCdf specialR 3 ℓ) F) (r : ℝ) :
+    HasDerivAt F (radFac 3 r * gauDensity 3 ℓ r) r := by
+  rw [hF.unique (offers_gaussian_d3 ℓ)]
+  have h1 := (hasDerivAt_erfR (r * ℓ / 2)).comp r (hasDerivAt_half ℓ r)
+  have h2 : HasDerivAt (fun r : ℝ => r * ℓ / √π) (ℓ / √π) r := by
+    simpa using ((hasDerivAt_id r).mul_const ℓ).div_const (√π)
+  have h := (h1 : HasDerivAt (fun r : ℝ => erfR (r * ℓ / 2)) _ r).sub (h2.mul (hasDerivAt_gauss_half ℓ r))
+  refine (h : HasDerivAt (fun r : ℝ => erfR (r * ℓ / 2) - r * ℓ / √π * Real.exp (-(r * ℓ / 2) ^ 2)) _ r).congr_deriv ?_
+  rw [gauDensity_real]; simp only [radFac, Nat.cast_ofNat, pi_real, npow_real]
+  have := sqrt_pi_ne
+  field_simp
+  rw [sqrt_pi_sq]; ring
+
+/-! ### Exponential -/
+
+theorem expDensity_d1 (ℓ k : ℝ) : expDensity 1 ℓ k = ℓ / (π * (1 + (k * ℓ) ^ 2)) := by
+  unfold expDensity
+  simp only [npow_real, rpow_real, pi_real, pow_one, Nat.cast_one]
+  have : (((1 + 1 : ℕ) : ℝ) / ((2:ℕ):ℝ)) = 1 := by norm_num
+  have g : (gammaHalf (1 + 1) : ℝ) = 1 := by show (gammaHalf 2 : ℝ) = 1; simp [gammaHalf]
+  rw [this, Real.rpow_one, g, mul_one]
+
+private theorem rpow_three_halves (a : ℝ) (ha : 0 ≤ a) : a ^ ((3:ℝ) / 2) = a * √a := by
+  have : (3:ℝ) / 2 = 1 + 1 / 2 := by norm_num
+  rcases ha.eq_or_lt with h | h
+  · subst h; simp
+  · rw [this, Real.rpow_add h, Real.rpow_one, Real.sqrt_eq_rpow]
+
+theorem expDensity_d2 (ℓ k : ℝ) :
+    expDensity 2 ℓ k = ℓ ^ 2 * (√π / 2) / ((π * (1 + (k * ℓ) ^ 2)) * √(π * (1 + (k * ℓ) ^ 2))) := by
+  unfold expDensity
+  simp only [npow_real, rpow_real, pi_real, gammaHalf, Nat.cast_one, sqrt_real]
+  have e : (((2 + 1 : ℕ) : ℝ) / ((2:ℕ):ℝ)) = 3 / 2 := by norm_num
+  have hy : 0 ≤ π * (1 + (k * ℓ) ^ 2) := by positivity
+  rw [e, rpow_three_halves _ hy]
+  norm_num
+  ring
+
+theorem expDensity_d3 (ℓ k : ℝ) : expDensity 3 ℓ k = ℓ ^ 3 / (π * (1 + (k * ℓ) ^ 2)) ^ 2 := by
+  unfold expDensity
+  simp only [npow_real, rpow_real, pi_real, gammaHalf, Nat.cast_one]
+  have e : (((3 + 1 : ℕ) : ℝ) / ((2:ℕ):ℝ)) = ((2:ℕ):ℝ) := by norm_num
+  rw [e, Real.rpow_natCast]
+  norm_num
+
+private theorem hasDerivAt_scaled (ℓ r : ℝ) : HasDerivAt (fun r : ℝ => r * ℓ) ℓ r := by
+  simpa using (hasDerivAt_id r).mul_const ℓ
+
+private theorem hasDerivAt_y (ℓ r : ℝ) :
+    HasDerivAt (fun r : ℝ => 1 + (r * ℓ) ^ 2) (2 * (r * ℓ) * ℓ) r := by
+  have h := ((hasDerivAt_scaled ℓ r).pow 2).const_add 1
+  exact (h : HasDerivAt (fun r : ℝ => 1 + (r * ℓ) ^ 2) _ r).congr_deriv (by norm_num)
+
+private theorem y_pos (ℓ r : ℝ) : 0 < 1 + (r * ℓ) ^ 2 := by positivity
+
+/-- Exponential d = 1 -/
+theorem cdf_deriv_exponential_d1 (ℓ : ℝ) {F : ℝ → ℝ} (hF : Offers (expCdf 1 ℓ) F) (r : ℝ) :
+    HasDerivAt F (radFac 1 r * expDensity 1 ℓ r) r := by
+  rw [hF.unique (offers_exponential_d1 ℓ)]
+  have h := (((Real.hasDerivAt_arctan (r * ℓ)).comp r (hasDerivAt_scaled ℓ r)).mul_const 2).div_const π
+  refine (h : HasDerivAt (fun r : ℝ => Real.arctan (r * ℓ) * 2 / π) _ r).congr_deriv ?_
+  rw [expDensity_d1]; simp only [radFac, Nat.cast_ofNat]
+  have := y_pos ℓ r
+  have := Real.pi_pos
+  field_simp
+
+/-- Exponential d = 2 -/
+theorem cdf_deriv_exponential_d2 (ℓ : ℝ) {F : ℝ → ℝ} (hF : Offers (expCdf 2 ℓ) F) (r : ℝ) :
+    HasDerivAt F (radFac 2 r * expDensity 2 ℓ r) r := by
+  rw [hF.unique (offers_exponential_d2 ℓ)]
+  have hy := y_pos ℓ r
+  have hs : √(1 + (r * ℓ) ^ 2) ≠ 0 := (Real.sqrt_pos.mpr hy).ne'
+  have h := (((hasDerivAt_const r (1:ℝ)).div ((hasDerivAt_y ℓ r).sqrt hy.ne') hs)).const_sub 1
+  refine (h : HasDerivAt (fun r : ℝ => 1 - 1 / √(1 + (r * ℓ) ^ 2)) _ r).congr_deriv ?_
+  rw [expDensity_d2, Real.sqrt_mul Real.pi_pos.le]
+  simp only [radFac, Nat.cast_ofNat, pi_real]
+  have hsq : √(1 + (r * ℓ) ^ 2) ^ 2 = 1 + (r * ℓ) ^ 2 := Real.sq_sqrt hy.le
+  set s := √(1 + (r * ℓ) ^ 2) with hsdef
+  rw [← hsq]
+  have := sqrt_pi_ne
+  have := Real.pi_pos
+  field_simp
+  ring
+
+/-- Exponential d = 3 -/
+theorem cdf_deriv_exponential_d3 (ℓ : ℝ) {F : ℝ → ℝ} (hF : Offers (expCdf 3 ℓ) F) (r : ℝ) :
+    HasDerivAt F (radFac 3 r * expDensity 3 ℓ r) r := by
+  rw [hF.unique (offers_exponential_d3 ℓ)]
+  have hy := y_pos ℓ r
+  have h1 := (Real.hasDerivAt_arctan (r * ℓ)).comp r (hasDerivAt_scaled ℓ r)
+  have h2 := (hasDerivAt_scaled ℓ r).div (hasDerivAt_y ℓ r) hy.ne'
+  have h := (((h1 : HasDerivAt (fun r : ℝ => Real.arctan (r * ℓ)) _ r).sub h2).mul_const 2).div_const π
+  refine (h : HasDerivAt (fun r : ℝ => (Real.arctan (r * ℓ) - r * ℓ / (1 + (r * ℓ) ^ 2)) * 2 / π) _ r).congr_deriv ?_
+  rw [expDensity_d3]; simp only [radFac, Nat.cast_ofNat, pi_real, npow_real]
+  have := Real.pi_pos
+  field_simp
+  ring
+
+
+/-! ### `cdf 0 = 0`, `cdf → 1` -/
+
+/-- every offered cdf starts at `0` -/
+theorem cdf_zero (ℓ : ℝ) {F : ℝ → ℝ}
+    (hF : Offers (gauCdf specialR 1 ℓ) F ∨ Offers (gauCdf specialR 2 ℓ) F ∨ Offers (gauCdf specialR 3 ℓ) F ∨
+      Offers (expCdf 1 ℓ) F ∨ Offers (expCdf 2 ℓ) F ∨ Offers (expCdf 3 ℓ) F) : F 0 = 0 := by
+  rcases hF with h | h | h | h | h | h
+  · rw [h.unique (offers_gaussian_d1 ℓ)]; simp [erfR_zero]
+  · rw [h.unique (offers_gaussian_d2 ℓ)]; simp
+  · rw [h.unique (offers_gaussian_d3 ℓ)]; simp [erfR_zero]
+  · rw [h.unique (offers_exponential_d1 ℓ)]; simp
+  · rw [h.unique (offers_exponential_d2 ℓ)]; simp
+  · rw [h.unique (offers_exponential_d3 ℓ)]; simp
+
+private theorem tendsto_scaled {ℓ : ℝ} (hℓ : 0 < ℓ) : Tendsto (fun r : ℝ => r * ℓ) atTop atTop :=
+  tendsto_id.atTop_mul_const hℓ
+
+private theorem tendsto_half {ℓ : ℝ} (hℓ : 0 < ℓ) : Tendsto (fun r : ℝ => r * ℓ / 2) atTop atTop :=
+  (tendsto_scaled hℓ).atTop_div_const two_pos
+
+private theorem tendsto_gauss_half {ℓ : ℝ} (hℓ : 0 < ℓ) :
+    Tendsto (fun r : ℝ => Real.exp (-(r * ℓ / 2) ^ 2)) atTop (𝓝 0) :=
+  Real.tendsto_exp_neg_atTop_nhds_zero.comp ((tendsto_pow_atTop two_ne_zero).comp (tendsto_half hℓ))
+
+/-- `t · e^{-t²} → 0` -/
+private theorem tendsto_mul_gauss : Tendsto (fun t : ℝ => t * Real.exp (-t ^ 2)) atTop (𝓝 0) := by
+  have h := Real.tendsto_pow_mul_exp_neg_atTop_nhds_zero 1
+  refine tendsto_of_tendsto_of_tendsto_of_le_of_le' tendsto_const_nhds h ?_ ?_
+  · filter_upwards [eventually_ge_atTop (0:ℝ)] with t ht
+    positivity
+  · filter_upwards [eventually_ge_atTop (1:ℝ)] with t ht
+    have : -t ^ 2 ≤ -t := by nlinarith
+    have := Real.exp_le_exp.mpr this
+    simp only [pow_one]
+    exact mul_le_mul_of_nonneg_left this (by linarith)
+
+theorem cdf_tendsto_one_gaussian_d1 (ℓ : ℝ) (hℓ : 0 < ℓ) {F : ℝ → ℝ}
+    (hF : Offers (gauCdf specialR 1 ℓ) F) : Tendsto F atTop (𝓝 1) := by
+  rw [hF.unique (offers_gaussian_d1 ℓ)]
+  exact tendsto_erfR_atTop.comp (tendsto_half hℓ)
+
+theorem cdf_tendsto_one_gaussian_d2 (ℓ : ℝ) (hℓ : 0 < ℓ) {F : ℝ → ℝ}
+    (hF : Offers (gauCdf specialR 2 ℓ) F) : Tendsto F atTop (𝓝 1) := by
+  rw [hF.unique (offers_gaussian_d2 ℓ)]
+  simpa using (tendsto_gauss_half hℓ).const_sub 1
+
+theorem cdf_tendsto_one_gaussian_d3 (ℓ : ℝ) (hℓ : 0 < ℓ) {F : ℝ → ℝ}
+    (hF : Offers (gauCdf specialR 3 ℓ) F) : Tendsto F atTop (𝓝 1) := by
+  rw [hF.unique (offers_gaussian_d3 ℓ)]
+  have h1 : Tendsto (fun r : ℝ => erfR (r * ℓ / 2)) atTop (𝓝 1) := tendsto_erfR_atTop.comp (tendsto_half hℓ)
+  have h2 : Tendsto (fun r : ℝ => r * ℓ / √π * Real.exp (-(r * ℓ / 2) ^ 2)) atTop (𝓝 0) := by
+    have h := (tendsto_mul_gauss.comp (tendsto_half hℓ)).const_mul (2 / √π)
+    rw [mul_zero] at h
+    refine h.congr fun r => ?_
+    simp only [Function.comp]
+    have := sqrt_pi_ne
+    field_simp
+  simpa using h1.sub h2
+
+theorem cdf_tendsto_one_exponential_d1 (ℓ : ℝ) (hℓ : 0 < ℓ) {F : ℝ → ℝ}
+    (hF : Offers (expCdf 1 ℓ) F) : Tendsto F atTop (𝓝 1) := by
+  rw [hF.unique (offers_exponential_d1 ℓ)]
+  have h := ((Real.tendsto_arctan_atTop.mono_right nhdsWithin_le_nhds).comp (tendsto_scaled hℓ))
+  have h2 := (h.mul_const 2).div_const π
+  have e : π / 2 * 2 / π = 1 := by have := Real.pi_pos; field_simp
+  rw [e] at h2
+  exact h2
+
+theorem cdf_tendsto_one_exponential_d2 (ℓ : ℝ) (hℓ : 0 < ℓ) {F : ℝ → ℝ}
+    (hF : Offers (expCdf 2 ℓ) F) : Tendsto F atTop (𝓝 1) := by
+  rw [hF.unique (offers_exponential_d2 ℓ)]
+  have hy : Tendsto (fun r : ℝ => 1 + (r * ℓ) ^ 2) atTop atTop :=
+    tendsto_atTop_add_const_left _ _ ((tendsto_pow_atTop two_ne_zero).comp (tendsto_scaled hℓ))
+  have hs : Tendsto (fun r : ℝ => √(1 + (r * ℓ) ^ 2)) atTop atTop := Real.tendsto_sqrt_atTop.comp hy
+  have h := (tendsto_inv_atTop_zero.comp hs).const_sub 1
+  simpa [one_div] using h
+
+theorem cdf_tendsto_one_exponential_d3 (ℓ : ℝ) (hℓ : 0 < ℓ) {F : ℝ → ℝ}
+    (hF : Offers (expCdf 3 ℓ) F) : Tendsto F atTop (𝓝 1) := by
+  rw [hF.unique (offers_exponential_d3 ℓ)]
+  have h1 := ((Real.tendsto_arctan_atTop.mono_right nhdsWithin_le_nhds).comp (tendsto_scaled hℓ))
+  have hq : Tendsto (fun x : ℝ => x / (1 + x ^ 2)) atTop (𝓝 0) := by
+    refine tendsto_of_tendsto_of_tendsto_of_le_of_le' tendsto_const_nhds tendsto_inv_atTop_zero ?_ ?_
+    · filter_upwards [eventually_ge_atTop (0:ℝ)] with x hx
+      positivity
+    · filter_upwards [eventually_gt_atTop (0:ℝ)] with x hx
+      rw [div_le_iff₀ (by positivity)]
+      have : x⁻¹ * (1 + x ^ 2) = x⁻¹ + x := by field_simp
+      rw [this]
+      have : 0 < x⁻¹ := inv_pos.mpr hx
+      linarith
+  have h2 := hq.comp (tendsto_scaled hℓ)
+  have h := ((h1.sub h2).mul_const 2).div_const π
+  have e : (π / 2 - 0) * 2 / π = 1 := by have := Real.pi_pos; field_simp; ring
+  rw [e] at h
+  exact h
+
+/-! ### the radial pdf integrates to one -/
+
+theorem gauDensity_nonneg (d : ℕ) (ℓ k : ℝ) (hℓ : 0 ≤ ℓ) : 0 ≤ gauDensity d ℓ k := by
+  rw [gauDensity_real]; positivity
+
+theorem expDensity_nonneg (d : ℕ) (ℓ k : ℝ) (hℓ : 0 ≤ ℓ) : 0 ≤ expDensity d ℓ k := by
+  unfold expDensity
+  simp only [npow_real, rpow_real, pi_real]
+  have : 0 < (gammaHalf (d + 1) : ℝ) := gammaHalf_pos _ (by omega)
+  have : 0 ≤ π * (((1:ℕ):ℝ) + (k * ℓ) ^ 2) := by have := Real.pi_pos; positivity
+  positivity
+
+/-- **Gaussian, d = 1, 2, 3: `∫₀^∞ rad_fac(r) · density(r) dr = 1`** (and the integrand is integrable) -/
+theorem rad_pdf_integrates_to_one_gaussian (d : ℕ) (hd : d = 1 ∨ d = 2 ∨ d = 3) (ℓ : ℝ) (hℓ : 0 < ℓ) :
+    IntegrableOn (fun r => radFac d r * gauDensity d ℓ r) (Ioi 0) ∧
+      ∫ r in Ioi (0:ℝ), radFac d r * gauDensity d ℓ r = 1 := by
+  have hp : ∀ x ∈ Ioi (0:ℝ), 0 ≤ radFac d x * gauDensity d ℓ x := fun x hx =>
+    mul_nonneg (rad_fac_nonneg d (by omega) x (le_of_lt hx)) (gauDensity_nonneg d ℓ x hℓ.le)
+  rcases hd with rfl | rfl | rfl
+  · exact integral_pdf_eq_one (cdf_zero ℓ (Or.inl (offers_gaussian_d1 ℓ)))
+      (cdf_deriv_gaussian_d1 ℓ (offers_gaussian_d1 ℓ)) hp (cdf_tendsto_one_gaussian_d1 ℓ hℓ (offers_gaussian_d1 ℓ))
+  · exact integral_pdf_eq_one (cdf_zero ℓ (Or.inr (Or.inl (offers_gaussian_d2 ℓ))))
+      (cdf_deriv_gaussian_d2 ℓ (offers_gaussian_d2 ℓ)) hp (cdf_tendsto_one_gaussian_d2 ℓ hℓ (offers_gaussian_d2 ℓ))
+  · exact integral_pdf_eq_one (cdf_zero ℓ (Or.inr (Or.inr (Or.inl (offers_gaussian_d3 ℓ)))))
+      (cdf_deriv_gaussian_d3 ℓ (offers_gaussian_d3 ℓ)) hp (cdf_tendsto_one_gaussian_d3 ℓ hℓ (offers_gaussian_d3 ℓ))
+
+/-- **Exponential, d = 1, 2, 3: `∫₀^∞ rad_fac(r) · density(r) dr = 1`** -/
+theorem rad_pdf_integrates_to_one_exponential (d : ℕ) (hd : d = 1 ∨ d = 2 ∨ d = 3) (ℓ : ℝ) (hℓ : 0 < ℓ) :
+    IntegrableOn (fun r => radFac d r * expDensity d ℓ r) (Ioi 0) ∧
+      ∫ r in Ioi (0:ℝ), radFac d r * expDensity d ℓ r = 1 := by
+  have hp : ∀ x ∈ Ioi (0:ℝ), 0 ≤ radFac d x * expDensity d ℓ x := fun x hx =>
+    mul_nonneg (rad_fac_nonneg d (by omega) x (le_of_lt hx)) (expDensity_nonneg d ℓ x hℓ.le)
+  rcases hd with rfl | rfl | rfl
+  · exact integral_pdf_eq_one (cdf_zero ℓ (Or.inr (Or.inr (Or.inr (Or.inl (offers_exponential_d1 ℓ))))))
+      (cdf_deriv_exponential_d1 ℓ (offers_exponential_d1 ℓ)) hp
+      (cdf_tendsto_one_exponential_d1 ℓ hℓ (offers_exponential_d1 ℓ))
+  · exact integral_pdf_eq_one
+      (cdf_zero ℓ (Or.inr (Or.inr (Or.inr (Or.inr (Or.inl (offers_exponential_d2 ℓ)))))))
+      (cdf_deriv_exponential_d2 ℓ (offers_exponential_d2 ℓ)) hp
+      (cdf_tendsto_one_exponential_d2 ℓ hℓ (offers_exponential_d2 ℓ))
+  · exact integral_pdf_eq_one
+      (cdf_zero ℓ (Or.inr (Or.inr (Or.inr (Or.inr (Or.inr (offers_exponential_d3 ℓ)))))))
+      (cdf_deriv_exponential_d3 ℓ (offers_exponential_d3 ℓ)) hp
+      (cdf_tendsto_one_exponential_d3 ℓ hℓ (offers_exponential_d3 ℓ))
+
+/-- the code's `spectral_rad_pdf` (with its `r ≈ 0` rule and clipping) *is* `cdf'` wherever the rule does
+    not bite: Gaussian and Exponential, d = 1 (all `r ≥ 0`) and d = 2, 3 (`r > 1e-8`) -/
+theorem cdf_deriv_is_rad_pdf (ℓ : ℝ) (hℓ : 0 < ℓ) (r : ℝ) (hr : 0 ≤ r) (d : ℕ) (hd : d = 1 ∨ d = 2 ∨ d = 3)
+    (hband : d = 1 ∨ 1e-8 < r) {F G : ℝ → ℝ}
+    (hF : Offers (gauCdf specialR d ℓ) F) (hG : Offers (expCdf d ℓ) G) :
+    HasDerivAt F (radPdf d (gauDensity d ℓ) r) r ∧ HasDerivAt G (radPdf d (expDensity d ℓ) r) r := by
+  rw [rad_pdf_eq_smooth d (by omega) _ r hr hband (gauDensity_nonneg d ℓ r hℓ.le),
+    rad_pdf_eq_smooth d (by omega) _ r hr hband (expDensity_nonneg d ℓ r hℓ.le)]
+  rcases hd with rfl | rfl | rfl
+  · exact ⟨cdf_deriv_gaussian_d1 ℓ hF r, cdf_deriv_exponential_d1 ℓ hG r⟩
+  · exact ⟨cdf_deriv_gaussian_d2 ℓ hF r, cdf_deriv_exponential_d2 ℓ hG r⟩
+  · exact ⟨cdf_deriv_gaussian_d3 ℓ hF r, cdf_deriv_exponential_d3 ℓ hG r⟩
+
+
+/-! ## 5. ppf / cdf inverses -/
+
+/-- Gaussian d = 2: `cdf (ppf u) = u` on `[0, 1)` -/
+theorem cdf_ppf_gaussian_d2 (ℓ : ℝ) (hℓ : 0 < ℓ) (u : ℝ) (hu : 0 ≤ u ∧ u < 1) :
+    ∃ r, gauPpf specialR 2 ℓ u = some r ∧ gauCdf specialR 2 ℓ r = some u := by
+  refine ⟨2 / ℓ * √(-Real.log (1 - u)), by simp [gauPpf], ?_⟩
+  rw [offers_gaussian_d2 ℓ]
+  congr 1
+  have h1 : 0 < 1 - u := by linarith [hu.2]
+  have h2 : 0 ≤ -Real.log (1 - u) := by
+    have := Real.log_nonpos h1.le (by linarith [hu.1]); linarith
+  have e : 2 / ℓ * √(-Real.log (1 - u)) * ℓ / 2 = √(-Real.log (1 - u)) := by field_simp
+  beta_reduce
+  rw [e, Real.sq_sqrt h2, neg_neg, Real.exp_log h1]; ring
+
+/-- Gaussian d = 2: `ppf (cdf r) = r` for `r ≥ 0` -/
+theorem ppf_cdf_gaussian_d2 (ℓ : ℝ) (hℓ : 0 < ℓ) (r : ℝ) (hr : 0 ≤ r) :
+    ∃ u, gauCdf specialR 2 ℓ r = some u ∧ gauPpf specialR 2 ℓ u = some r := by
+  refine ⟨1 - Real.exp (-(r * ℓ / 2) ^ 2), offers_gaussian_d2 ℓ r, ?_⟩
+  simp only [gauPpf, log_real, sqrt_real, Nat.cast_ofNat, Nat.cast_one, Option.some.injEq]
+  have e : (1:ℝ) - (1 - Real.exp (-(r * ℓ / 2) ^ 2)) = Real.exp (-(r * ℓ / 2) ^ 2) := by ring
+  rw [e, Real.log_exp, neg_neg, Real.sqrt_sq (by positivity)]
+  field_simp
+
+/-- Exponential d = 1: `cdf (ppf u) = u` on `(-1, 1)` -/
+theorem cdf_ppf_exponential_d1 (ℓ : ℝ) (hℓ : 0 < ℓ) (u : ℝ) (hu : -1 < u ∧ u < 1) :
+    ∃ r, expPpf 1 ℓ u = .value r ∧ expCdf 1 ℓ r = some u := by
+  refine ⟨Real.tan (π / 2 * u) / ℓ, by simp [expPpf, Real.tan_eq_sin_div_cos], ?_⟩
+  rw [offers_exponential_d1 ℓ]
+  congr 1
+  have e : Real.tan (π / 2 * u) / ℓ * ℓ = Real.tan (π / 2 * u) := by field_simp
+  have hπ := Real.pi_pos
+  beta_reduce
+  rw [e, Real.arctan_tan (by nlinarith [hu.1]) (by nlinarith [hu.2])]
+  field_simp
+
+/-- Exponential d = 1: `ppf (cdf r) = r` for every `r` -/
+theorem ppf_cdf_exponential_d1 (ℓ : ℝ) (hℓ : 0 < ℓ) (r : ℝ) :
+    ∃ u, expCdf 1 ℓ r = some u ∧ expPpf 1 ℓ u = .value r := by
+  refine ⟨Real.arctan (r * ℓ) * 2 / π, offers_exponential_d1 ℓ r, ?_⟩
+  simp only [expPpf, sin_real, cos_real, pi_real, Nat.cast_ofNat]
+  have hπ := Real.pi_pos
+  have e : π / 2 * (Real.arctan (r * ℓ) * 2 / π) = Real.arctan (r * ℓ) := by field_simp
+  rw [e, ← Real.tan_eq_sin_div_cos, Real.tan_arctan]
+  congr 1
+  field_simp
+
+/-- what the property asks of Exponential d = 2 (planned `C04_ppf_cdf_inverse_exponential_d2`) -/
+def ppf_cdf_inverse_exponential_d2_full : Prop :=
+  ∀ ℓ : ℝ, 0 < ℓ → ∀ u : ℝ, 1e-8 < u → u < 1 →
+    ∃ r, expPpf 2 ℓ u = .value r ∧ expCdf 2 ℓ r = some u
+
+/-- **Exponential d = 2 (finding D18): the code's ppf inverts the *survival function*:
+    `cdf (ppf u) = 1 − u`.** -/
+theorem cdf_ppf_exponential_d2_is_survival (ℓ : ℝ) (hℓ : 0 < ℓ) (u : ℝ) (hu : 1e-8 < u ∧ u ≤ 1) :
+    ∃ r, expPpf 2 ℓ u = .value r ∧ expCdf 2 ℓ r = some (1 - u) := by
+  have hu0 : 0 < u := by linarith [hu.1]
+  have hnc : ¬ |u| ≤ 1e-8 := by rw [abs_of_pos hu0]; linarith [hu.1]
+  refine ⟨√(1 / u ^ 2 - 1) / ℓ, by simp [expPpf, isclose0, hnc], ?_⟩
+  rw [offers_exponential_d2 ℓ]
+  congr 1
+  have h1 : 0 ≤ 1 / u ^ 2 - 1 := by
+    rw [sub_nonneg, le_div_iff₀ (by positivity)]; nlinarith [hu.2]
+  have e : √(1 / u ^ 2 - 1) / ℓ * ℓ = √(1 / u ^ 2 - 1) := by field_simp
+  beta_reduce
+  rw [e, Real.sq_sqrt h1]
+  have e2 : (1:ℝ) + (1 / u ^ 2 - 1) = (1 / u) ^ 2 := by field_simp; ring
+  rw [e2, Real.sqrt_sq (by positivity)]
+  field_simp
+
+/-- hence the full statement is **false** of the current code (witness `ℓ = 1`, `u = 1/4`: the code gives
+    `cdf (ppf (1/4)) = 3/4`); replayed on the implementation by the search key `ppf-inverse:Exponential:d2` -/
+theorem ppf_cdf_inverse_exponential_d2_false : ¬ ppf_cdf_inverse_exponential_d2_full := by
+  intro h
+  obtain ⟨r, hr, hc⟩ := h 1 one_pos (1 / 4) (by norm_num) (by norm_num)
+  obtain ⟨r', hr', hc'⟩ := cdf_ppf_exponential_d2_is_survival 1 one_pos (1 / 4) ⟨by norm_num, by norm_num⟩
+  rw [hr] at hr'
+  injection hr' with hrr
+  subst hrr
+  rw [hc] at hc'
+  injection hc' with hcc
+  norm_num at hcc
+
+/-- Gaussian d = 1 with `erfinv` the (abstract) inverse of the defined `erf`: `ppf (cdf r) = r` -/
+theorem ppf_cdf_gaussian_d1 (ℓ : ℝ) (hℓ : 0 < ℓ) (r : ℝ) :
+    ∃ u, gauCdf specialR 1 ℓ r = some u ∧ gauPpf specialR 1 ℓ u = some r := by
+  refine ⟨erfR (r * ℓ / 2), offers_gaussian_d1 ℓ r, ?_⟩
+  simp only [gauPpf, specialR_erfinv, Nat.cast_ofNat, Option.some.injEq]
+  rw [Function.leftInverse_invFun erfR_strictMono.injective]
+  field_simp
+
+/-! ## 6. Matern `nu > 20` (finding D12): the reported density is not the transform of the correlation -/
+
+theorem matern_big_correlation (ℓ r : ℝ) (hℓ : ℓ ≠ 0) :
+    correlation maternBigCor ℓ r = correlation gauCor (2 * ℓ) r := by
+  simp only [correlation, maternBigCor, gauCor, npow_real, exp_real, Nat.cast_ofNat]
+  congr 2
+  field_simp
+
+/-- the true transform of the `nu > 20` correlation `exp(-(r/2ℓ)²)` is the Gaussian density with doubled
+    length, `(ℓ/√π)^d e^{-(kℓ)²}` (in every dimension) -/
+theorem matern_big_true_transform (d : ℕ) (ℓ : ℝ) (hℓ : 0 < ℓ) (k : EuclideanSpace ℝ (Fin d)) :
+    ((1 / (2 * π) : ℝ) : ℂ) ^ d *
+        ∫ v : EuclideanSpace ℝ (Fin d), ((correlation maternBigCor ℓ ‖v‖ : ℝ) : ℂ) *
+          Complex.exp (Complex.I * ((inner ℝ k v : ℝ) : ℂ))
+      = ((maternBigExact d ℓ ‖k‖ : ℝ) : ℂ) := by
+  simp_rw [matern_big_correlation ℓ _ hℓ.ne']
+  have h := gaussian_density_is_fourier_euclidean d (2 * ℓ) (by positivity) k
+  simpa [maternBigExact] using h
+
+/-- what the property asks of Matern with `nu > 20` -/
+def matern_big_density_is_fourier_full : Prop :=
+  ∀ (d : ℕ) (ℓ ν k : ℝ), 0 < ℓ → 20 < ν → 0 ≤ k →
+    maternDensity specialR d ℓ ν k = maternBigExact d ℓ k
+
+/-- the full statement is **false** of the current code: at `d = 2, ℓ = 1, ν = 25, k = 1` the code reports
+    `(1.02/1.04) · e^{-1}/π`, the transform of its correlation is `e^{-1}/π` (search key `spectrum:Matern-nu>20`) -/
+theorem matern_big_density_not_fourier : ¬ matern_big_density_is_fourier_full := by
+  intro h
+  have h1 := h 2 1 25 1 one_pos (by norm_num) zero_le_one
+  have hπ := Real.pi_pos
+  have hsq := sqrt_pi_sq
+  have hne := sqrt_pi_ne
+  have e1 : maternDensity specialR 2 1 25 1 = (1 / √π) ^ 2 * Real.exp (-1) * (1 + 0.5 * 1 / 25) * (1 / (1 + 1 / 25)) := by
+    unfold maternDensity
+    simp only [npow_real, rpow_real, sqrt_real, exp_real, pi_real, Nat.cast_ofNat, Nat.cast_one]
+    have : √(1 + (1 * 1 : ℝ) ^ 2 / 25) ^ (-(2:ℝ)) = 1 / (1 + 1 / 25) := by
+      rw [Real.rpow_neg (Real.sqrt_nonneg _)]
+      have : ((2:ℝ)) = ((2:ℕ):ℝ) := by norm_num
+      rw [this, Real.rpow_natCast, Real.sq_sqrt (by norm_num)]
+      norm_num
+    rw [this]
+    norm_num
+  have e2 : maternBigExact 2 1 1 = (1 / √π) ^ 2 * Real.exp (-1) := by
+    unfold maternBigExact
+    rw [gauDensity_real]
+    norm_num
+  rw [e1, e2] at h1
+  have hpos : 0 < (1 / √π) ^ 2 * Real.exp (-1) := by positivity
+  have : (1 + 0.5 * 1 / 25) * (1 / (1 + 1 / 25) : ℝ) = 1 := by
+    have := mul_left_cancel₀ hpos.ne' (by rw [← mul_assoc]; simpa using h1 : (1 / √π) ^ 2 * Real.exp (-1) * ((1 + 0.5 * 1 / 25) * (1 / (1 + 1 / 25))) = (1 / √π) ^ 2 * Real.exp (-1) * 1)
+    exact this
+  norm_num at this
+
+/-! ## 7. which classes offer what -/
+
+/-- a ppf is only offered together with a cdf -/
+theorem has_ppf_imp_has_cdf (cls : String) (d : ℕ) (h : hasPpf cls d = true) : hasCdf cls d = true := by
+  unfold hasPpf at h; unfold hasCdf
+  simp only [Bool.and_eq_true, Bool.or_eq_true] at h ⊢
+  exact ⟨h.1, Or.inl h.2⟩
+
+/-- the table `has_cdf` agrees with what the cdf functions return, in every dimension -/
+theorem has_cdf_iff_offered (d : ℕ) (ℓ r : ℝ) :
+    (gauCdf specialR d ℓ r).isSome = hasCdf "Gaussian" d ∧ (expCdf d ℓ r).isSome = hasCdf "Exponential" d := by
+  match d with
+  | 0 => simp [gauCdf, expCdf, hasCdf]
+  | 1 => simp [gauCdf, expCdf, hasCdf]
+  | 2 => simp [gauCdf, expCdf, hasCdf]
+  | 3 => simp [gauCdf, expCdf, hasCdf]
+  | n + 4 => simp [gauCdf, expCdf, hasCdf]
+
+
+/-! ## 8. Exponential, d = 1: the density is the Fourier transform of the correlation -/
+
+theorem exp_correlation_real (ℓ r : ℝ) : correlation expCor ℓ r = Real.exp (-(r / ℓ)) := by
+  simp [correlation, expCor]
+
+/-- **Exponential d = 1**: `(1/2π) ∫ exp(-|r|/ℓ) e^{ikr} dr = ℓ / (π (1 + (kℓ)²))`, the value of
+    `Exponential.spectral_density` at `|k|`. -/
+theorem exponential_density_is_fourier_d1 (ℓ : ℝ) (hℓ : 0 < ℓ) (k : ℝ) :
+    ((1 / (2 * π) : ℝ) : ℂ) *
+        ∫ r : ℝ, ((correlation expCor ℓ |r| : ℝ) : ℂ) * Complex.exp (Complex.I * (k : ℂ) * (r : ℂ))
+      = ((expDensity 1 ℓ |k| : ℝ) : ℂ) := by
+  set f : ℝ → ℂ := fun r => ((correlation expCor ℓ |r| : ℝ) : ℂ) * Complex.exp (Complex.I * (k : ℂ) * (r : ℂ))
+    with hf
+  set a₁ : ℂ := -((1 / ℓ : ℝ) : ℂ) + Complex.I * (k : ℂ) with ha₁
+  set a₂ : ℂ := ((1 / ℓ : ℝ) : ℂ) + Complex.I * (k : ℂ) with ha₂
+  have hre₁ : a₁.re < 0 := by simp [ha₁]; positivity
+  have hre₂ : 0 < a₂.re := by simp [ha₂]; positivity
+  have hpos : ∀ r ∈ Ioi (0:ℝ), f r = Complex.exp (a₁ * r) := by
+    intro r hr
+    simp only [hf, exp_correlation_real, abs_of_pos (mem_Ioi.mp hr), Complex.ofReal_exp, ← Complex.exp_add]
+    congr 1; rw [ha₁]; push_cast; ring
+  have hneg : ∀ r ∈ Iic (0:ℝ), f r = Complex.exp (a₂ * r) := by
+    intro r hr
+    simp only [hf, exp_correlation_real, abs_of_nonpos (mem_Iic.mp hr), Complex.ofReal_exp, ← Complex.exp_add]
+    congr 1; rw [ha₂]; push_cast; ring
+  have i₁ : IntegrableOn f (Ioi 0) :=
+    (integrableOn_exp_mul_complex_Ioi hre₁ 0).congr_fun (fun r hr => (hpos r hr).symm) measurableSet_Ioi
+  have i₂ : IntegrableOn f (Iic 0) :=
+    (integrableOn_exp_mul_complex_Iic hre₂ 0).congr_fun (fun r hr => (hneg r hr).symm) measurableSet_Iic
+  have e₁ : ∫ r in Ioi (0:ℝ), f r = -1 / a₁ := by
+    rw [setIntegral_congr_fun measurableSet_Ioi hpos, integral_exp_mul_complex_Ioi hre₁]; simp
+  have e₂ : ∫ r in Iic (0:ℝ), f r = 1 / a₂ := by
+    rw [setIntegral_congr_fun measurableSet_Iic hneg, integral_exp_mul_complex_Iic hre₂]; simp
+  rw [← intervalIntegral.integral_Iic_add_Ioi i₂ i₁, e₁, e₂, expDensity_d1, sq_abs]
+  have hπ : (π : ℂ) ≠ 0 := by exact_mod_cast Real.pi_pos.ne'
+  have hℓ' : (ℓ : ℂ) ≠ 0 := by exact_mod_cast hℓ.ne'
+  have h1 : a₁ ≠ 0 := fun h => by rw [h] at hre₁; simp at hre₁
+  have h2 : a₂ ≠ 0 := fun h => by rw [h] at hre₂; simp at hre₂
+  have hden : ((π * (1 + (k * ℓ) ^ 2) : ℝ) : ℂ) ≠ 0 := by
+    have : 0 < π * (1 + (k * ℓ) ^ 2) := by have := Real.pi_pos; positivity
+    exact_mod_cast this.ne'
+  have hprod : a₁ * a₂ = -(((1 + (k * ℓ) ^ 2) / ℓ ^ 2 : ℝ) : ℂ) := by
+    rw [ha₁, ha₂]
+    push_cast
+    field_simp
+    ring_nf
+    rw [Complex.I_sq]; ring
+  have hsum : -1 / a₁ + 1 / a₂ = (a₁ - a₂) / (a₁ * a₂) := by field_simp; ring
+  have hdiff : a₁ - a₂ = -(2 * ((1 / ℓ : ℝ) : ℂ)) := by rw [ha₁, ha₂]; ring
+  rw [add_comm, hsum, hprod, hdiff]
+  push_cast
+  have hy : (1 + ((k:ℂ) * (ℓ:ℂ)) ^ 2) ≠ 0 := by
+    have : 0 < 1 + (k * ℓ) ^ 2 := by positivity
+    exact_mod_cast this.ne'
+  field_simp
+
 
 end GSV.Props.C04
